@@ -362,6 +362,24 @@ fn attempt(
     res.map_err(|e| (e, count))?;
     let time = parsed.to_naive_time();
     let date = parsed.to_naive_date();
+    // Today's date and midnight only stand in for a half that was not
+    // written at all. A date or time that was written but does not
+    // exist, like February 30th, is an error.
+    let date_written = parsed.year.is_some()
+        || parsed.year_div_100.is_some()
+        || parsed.year_mod_100.is_some()
+        || parsed.isoyear.is_some()
+        || parsed.isoweek.is_some()
+        || parsed.month.is_some()
+        || parsed.day.is_some()
+        || parsed.ordinal.is_some()
+        || parsed.weekday.is_some()
+        || parsed.timestamp.is_some();
+    let time_written = parsed.hour_div_12.is_some()
+        || parsed.hour_mod_12.is_some()
+        || parsed.minute.is_some()
+        || parsed.second.is_some()
+        || parsed.nanosecond.is_some();
     if let Some(tz) = tz {
         match (time, date) {
             (Ok(time), Ok(date)) => tz
@@ -374,7 +392,7 @@ fn attempt(
                     )
                 })
                 .map(GenericDateTime::Timezone),
-            (Ok(time), Err(_)) => now
+            (Ok(time), Err(_)) if !date_written => now
                 .with_timezone(&tz)
                 .with_time(time)
                 .earliest()
@@ -385,7 +403,7 @@ fn attempt(
                     )
                 })
                 .map(GenericDateTime::Timezone),
-            (Err(_), Ok(date)) => tz
+            (Err(_), Ok(date)) if !time_written => tz
                 .from_local_datetime(&date.and_hms_opt(0, 0, 0).unwrap())
                 .earliest()
                 .ok_or_else(|| {
@@ -417,7 +435,7 @@ fn attempt(
                     )
                 })
                 .map(GenericDateTime::Fixed),
-            (Ok(time), Err(_)) => now
+            (Ok(time), Err(_)) if !date_written => now
                 .with_timezone(&offset)
                 .with_time(time)
                 .earliest()
@@ -428,7 +446,7 @@ fn attempt(
                     )
                 })
                 .map(GenericDateTime::Fixed),
-            (Err(_), Ok(date)) => offset
+            (Err(_), Ok(date)) if !time_written => offset
                 .from_local_datetime(&date.and_hms_opt(0, 0, 0).unwrap())
                 .earliest()
                 .ok_or_else(|| {
